@@ -19,7 +19,7 @@ def run(tier, seed):
     recs = [x for o in outs for x in o]
     path = chk.dir / "urls.ndjson"
     write_ndjson(path, recs)
-    res2 = run_tlc("Trace_Url", "Trace_Url", workdir=chk.dir, env={"TRACE_FILE": str(path)}, timeout=3000)
+    res2 = run_tlc("Trace_Url", "Trace_Url", workdir=chk.dir, env={"TRACE_FILE": str(path)}, timeout=3000, workers=4)
     chk.add_tlc(res2)
     if len(res2.records) != len(recs):
         raise MachineryError(f"{len(recs)} url records but {len(res2.records)} verdicts")
